@@ -662,8 +662,37 @@ def _derive(draw, ast, clean):
     return g_pattern(draw, clean), "random"
 
 
+def _multiplicity_pair(draw):
+    """Absorption must respect operand multiplicity: (X AND X AND Y) is NOT absorbed into
+    (X AND X AND Y) OR (X AND Y AND Z) -- the second alternative holds fewer copies of X, and AND operands bind distinct
+    observations.  Built with drawn operands / operator / context; the relation promises nothing (soundness decides)."""
+    mk = lambda: {"k": "obs", "e": g_comparison(draw, draw(_S_TYPE), True)}  # noqa: E731
+    x, y, z = mk(), mk(), mk()
+    op = "oand" if draw(_I4) else "ofb"
+    copies = 2 + (draw(_I4) == 0)
+    small = {"k": op, "args": [copy.deepcopy(x) for _ in range(copies)] + [copy.deepcopy(y)]}
+    big_args = [copy.deepcopy(x) for _ in range(copies - 1)] + [copy.deepcopy(y), copy.deepcopy(z)]
+    if op == "oand" and draw(_I2):
+        big_args.reverse()
+    big = {"k": op, "args": big_args}
+    alts = [copy.deepcopy(small), big]
+    if draw(_I2):
+        alts.reverse()
+    p, q = small, {"k": "oor", "args": alts}
+    if draw(_I4) == 0:      # inside a context
+        w = mk()
+        p = {"k": "ofb", "args": [copy.deepcopy(w), p]}
+        q = {"k": "ofb", "args": [w, q]}
+    if draw(_I2):
+        p, q = q, p
+    return p, q
+
+
 @st.composite
 def pair_case(draw):
+    if draw(st.integers(0, 15)) == 0:
+        p, q = _multiplicity_pair(draw)
+        return {"kind": "pair", "p": p, "q": q, "rel": "mutation:absorb-multiplicity", "sp": draw(_STYLE), "sq": draw(_STYLE)}
     clean = draw(_I10) < 6
     p = g_pattern(draw, clean)
     q, rel = _derive(draw, p, clean)
